@@ -178,7 +178,11 @@ func TestC06Sweep(t *testing.T) {
 	ks = append(ks, 1000, 2000, 4001, 8191, 8192, 9999, 10000)
 	for _, k := range ks {
 		a := float64(k) / 2
-		for _, x := range []float64{1, math.Nextafter(1, 0), math.Nextafter(1, 2), a, math.Nextafter(a, 0), math.Nextafter(a, 2*a+1), 0, math.SmallestNonzeroFloat64} {
+		xs := []float64{1, math.Nextafter(1, 0), math.Nextafter(1, 2), a, math.Nextafter(a, 0), math.Nextafter(a, 2*a+1), 0, math.SmallestNonzeroFloat64}
+		if k <= 12 { // tiny positive arguments: Q(1/2, x) = erfc(sqrt x) leaves 1 by 1e-8 already at x = 1e-16
+			xs = append(xs, 1e-10, 1e-13, 1e-15, 2.3e-16, 1.1e-16, 1e-16, 1e-17, 1e-18, 1e-20, 1e-22, 1e-24, 1e-30, 1e-100)
+		}
+		for _, x := range xs {
 			cases = append(cases, c06Case{TwoA: k, X: x, X2: math.Nextafter(x, math.Inf(1)), Kind: "on-switch-line"})
 		}
 	}
